@@ -22,7 +22,7 @@ import sys
 import time
 
 VERIF = os.path.dirname(os.path.dirname(os.path.abspath(__file__)))
-REPO = "/repo"
+REPO = os.environ.get("VERIF_REPO", "/repo")   # registered commands always use /repo; the override serves scratch-copy trials
 COQ = os.path.join(VERIF, "coq")
 BUILD = os.path.join(VERIF, "build")
 EVID = os.path.join(VERIF, "evidence")
@@ -240,9 +240,19 @@ def register_config(name, features, rustflags="", profile="dev"):
 def build_harness(config="default", timeout=1800):
     feats, rflags, profile = HARNESS_CONFIGS[config]
     tdir = os.path.join(BUILD, "cargo", config)
-    os.makedirs(tdir, exist_ok=True)
     # Cargo.lock: start from /repo's lock file so that no resolution needs the network
     hdir = os.path.join(VERIF, "harness")
+    if REPO != "/repo":
+        # scratch-copy trial: stage the harness crate with its path dependency pointing at the copy
+        tag = hashlib.sha256(REPO.encode()).hexdigest()[:8]
+        tdir = os.path.join(BUILD, "cargo-alt-" + tag, config)
+        stage = os.path.join(BUILD, "harness-src-" + tag)
+        shutil.rmtree(stage, ignore_errors=True)
+        shutil.copytree(hdir, stage, ignore=shutil.ignore_patterns("target"))
+        ct = open(os.path.join(stage, "Cargo.toml")).read().replace('path = "/repo/fast-tlsh"', 'path = "%s/fast-tlsh"' % REPO)
+        open(os.path.join(stage, "Cargo.toml"), "w").write(ct)
+        hdir = stage
+    os.makedirs(tdir, exist_ok=True)
     cmd = ["cargo", "build", "--offline", "--target-dir", tdir, "--no-default-features"] + feats
     if profile == "release":
         cmd.append("--release")
